@@ -291,6 +291,8 @@ class API:
                      generate_targets: dict[str, Target],
                      package_targets: dict[str, PackageTarget],
                      build_targets: dict[str, BuildTarget], file_reader_writer: FileReaderWriter):
+            # the validated settings also hold what the `pydjinni__…` environment variables and the `.env` file supplied
+            require_encodable_text(config.model_dump(mode="json", warnings=False))
             self._config = config
             self._external_types_model = external_types_model
             self._generate_targets = generate_targets
